@@ -319,9 +319,9 @@ def main(run):
         if i % 700 == 3:
             run.sample({"case": ln[:200], "impl": oc[i][:300]})
         if "!shadow-session" in oc[i]:
-            V.violation("property fails on the implementation: a datagram delivered to one session removed the "
-                        "queued request of another session of the same context (same mid and token): that "
-                        "request is neither retransmitted nor NACKed",
+            V.violation("property fails on the implementation: during a step of one session the queued request "
+                        "of another session of the same context (same mid and token, never answered) left "
+                        "the send queue without a NACK: it is neither retransmitted nor NACKed",
                         "case: %s\nobserved client trace (session under test; '!shadow-session-...' marks the step "
                         "after which the other session's request was gone): %s\n" % (ln, oc[i]), "oracle")
         if om[i] != oc[i]:
